@@ -34,6 +34,8 @@ def run_case(case):
         if ser == "json":
             # a configured key serializer: what is hashed is the serialized key as it goes on the wire
             kw["key_serializer"] = lambda k: json.dumps(k).encode()
+        if case.get("idempotent"):
+            kw["enable_idempotence"] = True
         p = AIOKafkaProducer(bootstrap_servers=net.bootstrap(), linger_ms=0, request_timeout_ms=2000,
                              metadata_max_age_ms=200, **kw)
         await p.start()
@@ -42,13 +44,18 @@ def run_case(case):
             val = b"v%d" % i
             fut = await p.send("t", val, key=key if ser else (None if key is None else bytes(key)))
             try:
-                md = await asyncio.wait_for(fut, 5.0)
+                md = await asyncio.wait_for(fut, case.get("wait", 5.0))
                 out.append(md.partition)
             except Exception as e:  # noqa: BLE001
                 out.append("EXC:" + type(e).__name__)
             if i % 7 == 0:
                 await asyncio.sleep(0.25)      # let metadata refresh (new shuffled order)
-        await p.stop()
+        if case.get("idempotent"):
+            # the election completes: records queued for a leaderless partition are delivered to THAT partition
+            for q in case.get("leaderless", []):
+                net.log("t", q).leader = q % case["brokers"]
+            await asyncio.sleep(2.0)
+        await asyncio.wait_for(p.stop(), 120.0)
         # where each value actually sits
         where = {}
         wire = {}
